@@ -61,7 +61,32 @@ func ruleR23() *Rule {
 			// the except bitmap handed to the cache is the caller's
 			lastArg := loc.Call.Args[len(loc.Call.Args)-1]
 			prm, isP := root(lastArg).(*ssa.Parameter)
+			if !isP && isBitmapPtr(lastArg.Type()) {
+				// folded into an options struct: a field of a parameter
+				if _, _, base, ok := loadedField(root(lastArg)); ok {
+					var b ssa.Value = base
+					if u, ok := b.(*ssa.UnOp); ok {
+						b = u.X
+					}
+					if al, ok := root(b).(*ssa.Alloc); ok {
+						// the parameter spilled into a local (struct parameters are addressed through one)
+						for _, st := range cellStores(al) {
+							if q, ok := st.Val.(*ssa.Parameter); ok {
+								prm, isP = q, true
+							}
+						}
+					}
+					if q, ok := root(b).(*ssa.Parameter); ok {
+						prm, isP = q, true
+					}
+				}
+				if isP {
+					c.ok("except-forwarded", c.pos(loc), "the caller's exclusion bitmap (a field of the options parameter) is what the cache load computes the exclusion list from")
+					goto afterExcept
+				}
+			}
 			c.check(isP && isBitmapPtr(prm.Type()), "except-forwarded", c.pos(loc), "the caller's exclusion bitmap is what the cache load computes the exclusion list from", "loadOrCreate does not receive the except parameter")
+		afterExcept:
 
 			isCell := func(v ssa.Value, cell *ssa.Alloc) bool {
 				u, ok := v.(*ssa.UnOp)
